@@ -3,6 +3,7 @@ package main
 import (
 	"fmt"
 	"go/token"
+	"go/types"
 	"strings"
 
 	"golang.org/x/tools/go/ssa"
@@ -187,107 +188,157 @@ func runC16(c *Ctx) {
 			continue
 		}
 		key := "constructor:" + ct.name
-		// the header store
-		var put *ssa.Call
+		// every header store frames one buffer; every buffer handed out (returned / written) is such a buffer,
+		// with header store and body copy on every path to the hand-over
+		type framed struct {
+			put, cp ssa.Instruction
+		}
+		good := map[ssa.Value]framed{}
+		var puts []*ssa.Call
 		eachInstr(f, func(in ssa.Instruction) {
 			if ci, ok := in.(*ssa.Call); ok && callName(ci) == binPut16 {
-				put = ci
+				puts = append(puts, ci)
 			}
 		})
-		if put == nil {
+		if len(puts) == 0 {
 			c.fail(key, f.Pos(), "no 2-byte length header is written")
 			continue
 		}
-		// target buffer: *(buf) [optionally [:2]] where buf = GetBuf(L + 2)
-		target := put.Call.Args[1]
-		if sl, ok := target.(*ssa.Slice); ok {
-			if sl.Low != nil {
-				if n, ok := constInt(sl.Low); !ok || n != 0 {
-					c.fail(key, instrPos(put), "the length header is written at a non-zero offset")
-					continue
+		failed := false
+		for _, put := range puts {
+			// target buffer: *(buf) [optionally [:2]] where buf = GetBuf(L + 2)
+			target := put.Call.Args[1]
+			if sl, ok := target.(*ssa.Slice); ok {
+				if sl.Low != nil {
+					if n, ok := constInt(sl.Low); !ok || n != 0 {
+						c.fail(key, instrPos(put), "the length header is written at a non-zero offset")
+						failed = true
+						break
+					}
+				}
+				target = sl.X
+			}
+			var bufPtr ssa.Value
+			if ld, ok := target.(*ssa.UnOp); ok && ld.Op == token.MUL {
+				bufPtr = ld.X
+			}
+			get, ok := bufPtr.(*ssa.Call)
+			if !ok || callName(get) != poolGet {
+				c.fail(key, instrPos(put), "the length header is not written into a freshly obtained frame buffer (target %s)", exprStr(target))
+				failed = true
+				break
+			}
+			// size = L + 2
+			var L ssa.Value
+			if bo, ok := get.Call.Args[0].(*ssa.BinOp); ok && bo.Op == token.ADD {
+				if n, ok := constInt(bo.Y); ok && n == 2 {
+					L = bo.X
+				} else if n, ok := constInt(bo.X); ok && n == 2 {
+					L = bo.Y
 				}
 			}
-			target = sl.X
-		}
-		var bufPtr ssa.Value
-		if ld, ok := target.(*ssa.UnOp); ok && ld.Op == token.MUL {
-			bufPtr = ld.X
-		}
-		get, ok := bufPtr.(*ssa.Call)
-		if !ok || callName(get) != poolGet {
-			c.fail(key, instrPos(put), "the length header is not written into a freshly obtained frame buffer (target %s)", exprStr(target))
-			continue
-		}
-		// size = L + 2
-		var L ssa.Value
-		if bo, ok := get.Call.Args[0].(*ssa.BinOp); ok && bo.Op == token.ADD {
-			if n, ok := constInt(bo.Y); ok && n == 2 {
-				L = bo.X
-			} else if n, ok := constInt(bo.X); ok && n == 2 {
-				L = bo.Y
+			if L == nil {
+				c.fail(key, instrPos(get), "the frame buffer is not len+2 bytes long (%s): the body is not guaranteed to be in it", exprStr(get.Call.Args[0]))
+				failed = true
+				break
 			}
+			// header value = uint16(L')  where L' is the same length expression
+			hv, ok := put.Call.Args[2].(*ssa.Convert)
+			if !ok || exprStr(hv.X) != exprStr(L) {
+				c.fail(key, instrPos(put), "the header is %s but the buffer holds %s body bytes", exprStr(put.Call.Args[2]), exprStr(L))
+				failed = true
+				break
+			}
+			// guard: L <= MaxMsgSize on the path (error return under L > 65535 dominates)
+			guarded := false
+			for _, g := range guardsOfInstr(put) {
+				if cm, ok := g.asCmp(); ok && exprStr(cm.X) == exprStr(L) && cm.Op == token.LEQ {
+					if n, ok := constInt(cm.Y); ok && n == 65535 {
+						guarded = true
+					}
+				}
+			}
+			// body: copy((*buf)[2:], src) with len(src) == L
+			var bodyCopy ssa.Instruction
+			eachInstr(f, func(in ssa.Instruction) {
+				ci, ok := in.(*ssa.Call)
+				if !ok || callName(ci) != "builtin:copy" {
+					return
+				}
+				dst, ok := ci.Call.Args[0].(*ssa.Slice)
+				if !ok || dst.Low == nil {
+					return
+				}
+				if n, ok := constInt(dst.Low); !ok || n != 2 {
+					return
+				}
+				if ld, ok := dst.X.(*ssa.UnOp); !ok || ld.X != bufPtr {
+					return
+				}
+				src := ci.Call.Args[1]
+				if exprStr(L) == "builtin:len("+exprStr(src)+")" {
+					bodyCopy = ci
+				}
+			})
+			if !guarded || bodyCopy == nil {
+				c.fail(key, instrPos(put), "framing constructor is not exact (size check before framing: %v, body copied to [2:] of the frame buffer with the announced length: %v)", guarded, bodyCopy != nil)
+				failed = true
+				break
+			}
+			good[bufPtr] = framed{put, bodyCopy}
 		}
-		if L == nil {
-			c.fail(key, instrPos(get), "the frame buffer is not len+2 bytes long (%s)", exprStr(get.Call.Args[0]))
+		if failed {
 			continue
 		}
-		// header value = uint16(L')  where L' is the same length expression
-		hv, ok := put.Call.Args[2].(*ssa.Convert)
-		if !ok || exprStr(hv.X) != exprStr(L) {
-			c.fail(key, instrPos(put), "the header is %s but the buffer holds %s body bytes", exprStr(put.Call.Args[2]), exprStr(L))
-			continue
-		}
-		// guard: L <= MaxMsgSize on the path (error return under L > 65535 dominates)
-		guarded := false
-		for _, g := range guardsOfInstr(put) {
-			if cm, ok := g.asCmp(); ok && exprStr(cm.X) == exprStr(L) && cm.Op == token.LEQ {
-				if n, ok := constInt(cm.Y); ok && n == 65535 {
-					guarded = true
+		// every buffer handed out is a framed buffer, framed on every path
+		outs, badOut := 0, ""
+		var badPos token.Pos
+		handOver := func(at ssa.Instruction, ptr ssa.Value) {
+			outs++
+			fr, ok := good[ptr]
+			if !ok {
+				if badOut == "" {
+					badOut, badPos = "hands out "+exprStr(ptr)+", which is not a len+2 buffer holding header and copied body", instrPos(at)
+				}
+				return
+			}
+			if !instrDominates(fr.put, at) || !instrDominates(fr.cp, at) {
+				if badOut == "" {
+					badOut, badPos = "hands out the frame buffer on a path that skips the header store or the body copy", instrPos(at)
 				}
 			}
 		}
-		// body: copy((*buf)[2:], src) with len(src) == L
-		bodyOK := false
-		eachInstr(f, func(in ssa.Instruction) {
-			ci, ok := in.(*ssa.Call)
-			if !ok || callName(ci) != "builtin:copy" {
-				return
-			}
-			dst, ok := ci.Call.Args[0].(*ssa.Slice)
-			if !ok || dst.Low == nil {
-				return
-			}
-			if n, ok := constInt(dst.Low); !ok || n != 2 {
-				return
-			}
-			if ld, ok := dst.X.(*ssa.UnOp); !ok || ld.X != bufPtr {
-				return
-			}
-			src := ci.Call.Args[1]
-			if exprStr(L) == "builtin:len("+exprStr(src)+")" {
-				bodyOK = true
-			}
-		})
-		// the returned / written buffer is that buffer
-		outOK := false
 		eachInstr(f, func(in ssa.Instruction) {
 			switch x := in.(type) {
 			case *ssa.Return:
-				for _, v := range returnedValues(x) {
-					if v == bufPtr {
-						outOK = true
+				if x.Block().Comment == "recover" {
+					return
+				}
+				rv := returnedValues(x)
+				if len(rv) > 0 && !isNilConst(rv[0]) {
+					if _, isPtr := rv[0].Type().Underlying().(*types.Pointer); isPtr {
+						handOver(x, rv[0])
 					}
 				}
 			case *ssa.Call:
 				if x.Call.IsInvoke() && x.Call.Method.Name() == "Write" {
-					if ld, ok := x.Call.Args[0].(*ssa.UnOp); ok && ld.X == bufPtr {
-						outOK = true
+					if ld, ok := x.Call.Args[0].(*ssa.UnOp); ok && ld.Op == token.MUL {
+						handOver(x, ld.X)
+					} else {
+						handOver(x, x.Call.Args[0])
 					}
 				}
 			}
 		})
-		c.check(guarded && bodyOK && outOK, key, instrPos(put), "len <= 65535 checked, header uint16(len) at 0, body at [2:], same buffer handed out",
-			fmt.Sprintf("framing constructor is not exact (size check before framing: %v, body copied to [2:] of the frame buffer with the announced length: %v, that buffer is the result: %v)", guarded, bodyOK, outOK))
+		if outs == 0 {
+			c.fail(key, f.Pos(), "the constructor hands out no buffer")
+			continue
+		}
+		if badOut != "" {
+			c.fail(key, badPos, "framing constructor %s: the frame on the wire would carry a correct-looking length followed by other bytes", badOut)
+			continue
+		}
+		c.ok(key, instrPos(puts[0]), "len <= 65535 checked, header uint16(len) at 0, body at [2:], that buffer handed out at all %d hand-over sites", outs)
 	}
 
 	// ---------------------------------------------------------------- R1
@@ -453,6 +504,10 @@ func runC16(c *Ctx) {
 		}
 		c.check(bad == "" && n > 0, "header-offsets", 0, "header bytes are indexed at constant offsets below 12", "a reply is indexed at "+bad+" which the 12-byte minimum does not cover")
 	}
+
+	// ---------------------------------------------------------------- R4
+	c.rule("R4", "raw message bytes are indexed at constant offsets only under a length guard, a construction length, or the 12-byte minimum of the readers", 30)
+	checkRawIndexGuarded(c, p.funcsIn(relTransport, relDoh, relUpstream, relDnsutils, relServer, relPool), map[string]string{})
 
 	// ---------------------------------------------------------------- R2
 	c.rule("R2", "every stream reader uses the frame reader", 4)
